@@ -202,4 +202,7 @@ def valpres(pre, post, *, op="valpres", key="", what="", seeds=(1, 2),
     ev["_cost"] = cost(list(sides.values()), ctx.idx, tgt, szs[0][0],
                        szs[0][1], spin)
     ev["_sizes"] = szs
+    # cost on the cheapest model the event will be judged on
+    ev["_mincost"] = min(cost(list(sides.values()), ctx.idx, tgt, no, nv, spin)
+                         for (no, nv) in szs)
     return ev, ctx
